@@ -128,6 +128,22 @@ class Summariser:
         if isinstance(e, ast.Call) and isinstance(e.func, ast.Attribute):
             meth = e.func.attr
             pair = None
+            if meth == 'join' and len(e.args) == 1 and isinstance(
+                    e.args[0], ast.Call) and isinstance(
+                        e.args[0].func, ast.Attribute) and \
+                    e.args[0].func.attr == 'split' and len(
+                        e.args[0].args) == 1:
+                # NEW.join(s.split(OLD)) is s.replace(OLD, NEW)
+                new_, old_ = self.cev(e.func.value), self.cev(
+                    e.args[0].args[0])
+                if isinstance(new_, str) and isinstance(old_, str):
+                    pair = (old_, new_)
+                    meth = 'replace'
+                    e = ast.copy_location(ast.Call(
+                        func=ast.Attribute(value=e.args[0].func.value,
+                                           attr='replace', ctx=ast.Load()),
+                        args=[], keywords=[]), e)
+                    e._text = None
             if meth == 'replace' and len(e.args) == 1 and isinstance(
                     e.args[0], ast.Starred):
                 pair = self.cev(e.args[0].value)
